@@ -78,7 +78,11 @@ func BuildUnixFSFile(r io.Reader, chunker string, ls *ipld.LinkSystem) (ipld.Lin
 			if next.link == nil {
 				node := basicnode.NewBytes([]byte{})
 				link, err := ls.Store(ipld.LinkContext{}, leafLinkProto, node)
-				return link, 0, err
+				if err != nil {
+					// Store hands back the computed link even when the commit failed
+					return nil, 0, err
+				}
+				return link, 0, nil
 			}
 			return next.link, next.storedSize, nil
 		}
@@ -296,7 +300,12 @@ func BuildUnixFSSymlink(content string, ls *ipld.LinkSystem) (ipld.Link, uint64,
 	}
 	pbn := dpbb.Build()
 
-	return sizedStore(ls, fileLinkProto, pbn)
+	lnk, sz, err := sizedStore(ls, fileLinkProto, pbn)
+	if err != nil {
+		// Store hands back the computed link even when the commit failed
+		return nil, 0, err
+	}
+	return lnk, sz, nil
 }
 
 // Constants below are from
